@@ -119,24 +119,13 @@ Theorem C08_open_index_wf : forall all, ksorted all -> wf_index (index_of all).
 Proof. exact index_of_wf. Qed.
 Print Assumptions C08_open_index_wf.
 
-(** TimeRange: the minimum is exact; full statement wanted: max = real max.  The model (and the
-    real UnmarshalBinary) start the maximum at 0: *)
-Theorem C08_time_range_partial : forall all, Forall wf_ents all ->
-  ix_mintime (index_of all) = sp_min_time all /\ ix_maxtime (index_of all) = Z.max 0 (sp_max_time all).
+(** TimeRange: min and max over all blocks of all keys, exactly, for every index whose keys have
+    time-ordered entries (it was refuted for all-pre-epoch files before the repair of finding
+    timerange-max-negative, /repo commit 5ed1659de6; a file without keys cannot be written). *)
+Theorem C08_time_range : forall all, Forall wf_ents all ->
+  ix_mintime (index_of all) = sp_min_time all /\ ix_maxtime (index_of all) = sp_max_time all.
 Proof. intros all H; split; [apply min_time_spec|apply max_time_spec]; exact H. Qed.
-Print Assumptions C08_time_range_partial.
-
-(** hence refuted for a file that only has points before the epoch
-    (known finding timerange-max-negative; reproduced on the real reader by the driver). *)
-Theorem C08_time_range_negative_refuted : exists all, Forall wf_ents all /\ ksorted all /\
-  ix_maxtime (index_of all) <> sp_max_time all.
-Proof.
-  exists [IK [97%N] 1 [E (-20) (-10) 5 20]]. split; [|split].
-  - constructor; [|constructor]. split; [discriminate|]. intros e [<-|[]]. cbn. lia.
-  - cbn. split; [intros ? []|exact I].
-  - vm_compute. discriminate.
-Qed.
-Print Assumptions C08_time_range_negative_refuted.
+Print Assumptions C08_time_range.
 
 (** ** Deletes hide exactly the given keys / ranges
     [wf_dr]: keys strictly sorted and inside [minKey,maxKey]; per key the first entry has the least
